@@ -66,6 +66,8 @@ pub struct GenericParser<'a, 'b, Version, Purpose> {
   purpose: PhantomData<Purpose>,
   claims: HashMap<String, Box<dyn erased_serde::Serialize + 'b>>,
   claim_validators: ValidatorMap,
+  //keys whose value was registered as an expectation (check_claim / extend_check_claims)
+  checked_claims: std::collections::HashSet<String>,
   footer: Footer<'a>,
   implicit_assertion: ImplicitAssertion<'a>,
 }
@@ -78,12 +80,14 @@ impl<'a, 'b, Version, Purpose> GenericParser<'a, 'b, Version, Purpose> {
       purpose: PhantomData::<Purpose>,
       claims: HashMap::new(),
       claim_validators: HashMap::new(),
+      checked_claims: Default::default(),
       footer: Default::default(),
       implicit_assertion: Default::default(),
     }
   }
   ///Allows adding multiple [claims](PasetoClaim) at once to be checked during parsing by passing a Hashmap of claim keys and values
   pub fn extend_check_claims(&mut self, value: HashMap<String, Box<dyn erased_serde::Serialize + 'b>>) -> &mut Self {
+    self.checked_claims.extend(value.keys().cloned());
     self.claims.extend(value);
     self
   }
@@ -106,7 +110,12 @@ impl<'a, 'b, Version, Purpose> GenericParser<'a, 'b, Version, Purpose> {
 
     //if there's a closure, then store that
     if let Some(closure) = validation_closure {
+      //the claim passed along with a validator is only a placeholder for its key
+      self.checked_claims.remove(&key);
       self.claim_validators.insert(key, Box::new(closure));
+    } else {
+      //the value itself is expected, whether or not a validator is registered for this key too
+      self.checked_claims.insert(key);
     }
     self
   }
@@ -168,8 +177,9 @@ impl<'a, 'b, Version, Purpose> GenericParser<'a, 'b, Version, Purpose> {
         let box_validator = &self.claim_validators[key];
         let validator = box_validator.as_ref();
         validator(key, &json[&key])?;
-      } else {
-        //otherwise, simply verify the claim exists and matches the value passed in
+      }
+      if !self.claim_validators.contains_key(key) || self.checked_claims.contains(key) {
+        //verify the claim exists and matches the value passed in
         if json[&key] == Value::Null {
           return Err(PasetoClaimError::Missing(key.to_string()).into());
         }
